@@ -1,6 +1,6 @@
 (* C06  K-means training descends the true distortion and stops by its stated rule. *)
 From Coq Require Import Reals List Lra.
-From BLE Require Import Num.InstR Model.KMeans Proofs.RLemmas Proofs.KMeansR Proofs.KMeansFit.
+From BLE Require Import Num.InstR Model.KMeans Proofs.RLemmas Proofs.KMeansR Proofs.KMeansFit Proofs.KMeansRun.
 Import ListNotations KR.
 Open Scope R_scope.
 
@@ -60,6 +60,24 @@ Theorem C06_stop_rule_is_relative_change cthr cur prev rest th : cthr = Some th 
   (stops cthr (cur :: prev :: rest) = true <-> rel_change prev cur <= th).
 Proof. exact (stops_spec cthr cur prev rest th). Qed.
 Print Assumptions C06_stop_rule_is_relative_change.
+
+(* descent needs no hypothesis on the clusters: an empty cluster keeps its centroid and contributes nothing *)
+Theorem C06_descent_unconditional (nf : nat) (cents X cents' : list (list R)) (crit : R) :
+  cents <> [] -> rows_ok nf X -> rows_ok nf cents ->
+  em_iter nf [X] cents = Some (cents', crit) ->
+  J cents' X <= J cents X.
+Proof. exact (kmeans_descent_always nf cents X cents' crit). Qed.
+Print Assumptions C06_descent_unconditional.
+
+(* a whole training run: the criteria reported by consecutive iterations (most recent first in hist) never increase, and
+   the distortion per sample of the returned centroids is at or below every reported criterion *)
+Theorem C06_training_run_descends (cthr : option R) (nf cap : nat) (X cents cents' : list (list R)) (n : nat) (hist : list R) :
+  X <> [] -> rows_ok nf X -> cents <> [] -> rows_ok nf cents ->
+  fit cap cthr nf [X] cents = Some (cents', n, hist) ->
+  (forall i, (S i < n)%nat -> nth i hist 0 <= nth (S i) hist 0)
+  /\ (forall i, (i < n)%nat -> J cents' X / INR (length X) <= nth i hist 0).
+Proof. exact (kmeans_fit_descends cthr nf cap X cents cents' n hist). Qed.
+Print Assumptions C06_training_run_descends.
 
 Example C06_nonvacuous : rows_ok 1 [[0]; [1]; [5]] /\ closest [[0]; [5]] [1] = 0%nat.
 Proof. split. repeat constructor. unfold closest, dists, sqdist, V.argmin; simpl. unfold V.sqr; unfold_R.
